@@ -426,7 +426,7 @@ func (w *World) enabledLocked() []*Task {
 	return e
 }
 
-const spinLimit = 64
+const spinLimit = 512
 
 func (w *World) pickLocked(e []*Task) *Task {
 	if len(e) == 1 {
@@ -514,7 +514,9 @@ func (w *World) Run(done func() bool) {
 		}
 		if e[0].spin >= spinLimit {
 			// only busy loops are runnable: let simulated time pass
-			w.Probes["busyloop:"+e[0].site]++
+			if e[0].spin == spinLimit {
+				w.Probes["busyloop:"+e[0].site]++
+			}
 			w.mu.Unlock()
 			time.Sleep(time.Millisecond)
 			w.mu.Lock()
